@@ -17,6 +17,8 @@ structure MSt where
   /-- operation started by the current step's event, after close -/
   newOp : Option Nat := none
   closedBcs : List Nat := []
+  /-- every broker client ever created -/
+  newBcs : List Nat := []
   downBcs : List Nat := []
   /-- close operations whose Deferred has fired -/
   firedOps : List Nat := []
@@ -69,7 +71,9 @@ def stepItem (s : MSt) : TItem → MSt
       if s.closed && !failing r then fail s2 s!"operation {op} completed successfully after close" else s2
     | .raised op _ => { s with live := s.live.filter (fun x => !(x == op)) }
     | .mk k _ _ _ => if s.closed then fail s s!"request {k} issued after close" else s
-    | .bcNew b _ _ _ => if s.closed then fail s s!"broker client {b} created after close" else s
+    | .bcNew b _ _ _ =>
+      let s1 := { s with newBcs := s.newBcs ++ [b] }
+      if s.closed then fail s1 s!"broker client {b} created after close" else s1
     | .bootConnect j _ _ => if s.closed then fail s s!"bootstrap connect {j} after close" else s
     | .bootWrite j => if s.closed then fail s s!"bootstrap write {j} after close" else s
     | .bcClose b => { s with closedBcs := s.closedBcs ++ [b] }
@@ -79,8 +83,11 @@ def stepItem (s : MSt) : TItem → MSt
       let s2 := if s.firedOps.contains o then fail s "close Deferred fired twice" else { s with firedOps := s.firedOps ++ [o] }
       let s3 := if s2.bootLost.all (fun j => s2.bootGone.contains j) then s2
         else { s2 with bootFails := s2.bootFails ++ ["close Deferred fired before a bootstrap connection had gone"] }
-      if s3.closedBcs.all (fun b => s3.downBcs.contains b) then s3
-      else fail s3 "close Deferred fired before the last broker client had gone"
+      let s4 := if s3.closedBcs.all (fun b => s3.downBcs.contains b) then s3
+        else fail s3 "close Deferred fired before the last broker client had gone"
+      -- all broker connections are closed: every broker client ever created was told to close
+      if s4.newBcs.all (fun b => s4.closedBcs.contains b) then s4
+      else fail s4 "close Deferred fired although a broker client was never told to close"
     | _ => s
   | .dump c =>
     if s.closed && !Afkak.Monitor.C08.allInvalid c then fail s "metadata survives close" else
